@@ -22,10 +22,12 @@ import (
 	"context"
 	"encoding/json"
 	"fmt"
+	"io"
 	"os"
 	"os/exec"
 	"path/filepath"
 	"reflect"
+	"runtime"
 	"sort"
 	"strings"
 	"sync"
@@ -315,6 +317,10 @@ type Case struct {
 	// Edits applied to the result before the source is compared again (lib
 	// entry): recalc, stamp, sign, append, scribble
 	Edits []string `json:"edits,omitempty"`
+	// After (bulk entry): the request is the second of its stream, sent once an
+	// unrelated correct request carrying every option has been answered; and
+	// when no option is set, the payload has no `options` member at all
+	After bool `json:"after,omitempty"`
 }
 
 var allEdits = []string{"recalc", "stamp", "sign", "append", "scribble"}
@@ -1223,30 +1229,67 @@ func runCLI(c Case, input []byte) (any, error) {
 	return cli.Correct(ctx, co)
 }
 
+// preludeOptions: options that give a valid correction in most regimes, none
+// of them this case's; what the request before ours on the stream asked for.
+var preludeOptions = []byte(`{"type":"credit-note","issue_date":"2021-02-03","series":"PRELUDE","reason":"prelude reason","copy_tax":true}`)
+
 func runBulk(c Case, input []byte) (json.RawMessage, string, string) {
-	var payload any
-	if c.Op == "replicate" {
-		payload = cli.ReplicateRequest{Data: input}
-	} else {
-		payload = cli.CorrectRequest{Data: input, Options: optsJSON(c.Opts)}
+	payload := map[string]any{"data": input}
+	if c.Op != "replicate" {
+		if oj := optsJSON(c.Opts); !(c.After && string(oj) == "{}") {
+			payload["options"] = oj
+		}
 	}
 	pl, _ := json.Marshal(payload)
 	req, _ := json.Marshal(cli.BulkRequest{Action: c.Op, ReqID: "c16-req", Payload: pl})
 	var got *cli.BulkResponse
 	final := false
 	n := 0
-	for r := range cli.Bulk(context.Background(), &cli.BulkOptions{In: bytes.NewReader(req)}) {
+	want := 2
+	if c.After {
+		// one stream, two requests, the second written once the first is answered
+		want = 3
+		// on one processor, so that whatever the command keeps per processor
+		// between requests (pools, caches) is the same for both requests
+		prev := runtime.GOMAXPROCS(1)
+		defer runtime.GOMAXPROCS(prev)
+		ppl, _ := json.Marshal(cli.CorrectRequest{Data: input, Options: preludeOptions})
+		pre, _ := json.Marshal(cli.BulkRequest{Action: "correct", ReqID: "c16-prelude", Payload: ppl})
+		pr, pw := io.Pipe()
+		ch := cli.Bulk(context.Background(), &cli.BulkOptions{In: pr})
+		_, _ = pw.Write(append(pre, '\n'))
+		first, ok := <-ch
 		n++
-		if r.IsFinal {
-			final = true
-			continue
+		if !ok || first.ReqID != "c16-prelude" {
+			pw.Close()
+			for range ch {
+			}
+			return nil, "", "the first request of the stream was not answered first"
 		}
-		got = r
+		_, _ = pw.Write(append(req, '\n'))
+		pw.Close()
+		for r := range ch {
+			n++
+			if r.IsFinal {
+				final = true
+				continue
+			}
+			got = r
+		}
+	} else {
+		for r := range cli.Bulk(context.Background(), &cli.BulkOptions{In: bytes.NewReader(req)}) {
+			n++
+			if r.IsFinal {
+				final = true
+				continue
+			}
+			got = r
+		}
 	}
 	switch {
-	case got == nil || !final || n != 2:
+	case got == nil || !final || n != want:
 		return nil, "", fmt.Sprintf("%d responses, final=%v", n, final)
-	case got.ReqID != "c16-req" || got.SeqID != 1:
+	case got.ReqID != "c16-req" || got.SeqID != int64(want-1):
 		return nil, "", fmt.Sprintf("response pairs with req_id %q seq %d", got.ReqID, got.SeqID)
 	}
 	if got.Error != nil {
@@ -2070,6 +2113,10 @@ func caseOf(di *docInfo, v vector, cb combo) (Case, bool) {
 	if cb.entry == "lib" {
 		c.Edits = allEdits
 	}
+	if cb.entry == "bulk" {
+		oj := optsJSON(c.Opts)
+		c.After = string(oj) == "{}" || len(oj)%2 == 0
+	}
 	return c, true
 }
 
@@ -2101,6 +2148,17 @@ func enumSweep(yield func(Case) bool) {
 					continue
 				}
 				if !yield(c) {
+					return
+				}
+			}
+		}
+		// a bulk request without any option, after another one on the same stream
+		if vs := vectors(d); len(vs) > 0 {
+			v := vs[0]
+			v.opts = Opts{}
+			if c, ok := caseOf(d, v, combo{"bulk", "data"}); ok {
+				idx++
+				if idx%cfg.Shards == cfg.Shard && !yield(c) {
 					return
 				}
 			}
@@ -2217,6 +2275,9 @@ func genCase(t *rapid.T) Case {
 	default:
 		c.Entry = "cli-doc"
 	}
+	if c.Entry == "bulk" {
+		c.After = rapid.Bool().Draw(t, "after")
+	}
 	// source
 	req := dedup(def.Stamps)
 	for _, k := range req {
@@ -2307,6 +2368,9 @@ func genCase(t *rapid.T) Case {
 		c.Opts.IssueDate = fmt.Sprintf("%04d-%02d-%02d", y, m, d)
 	}
 	c.Opts.CopyTax = rapid.IntRange(0, 3).Draw(t, "copy_tax") == 0
+	if c.After && c.Op == "correct" && rapid.IntRange(0, 3).Draw(t, "no_options") == 0 {
+		c.Opts = Opts{} // a request that asks for nothing: no `options` member
+	}
 	return c
 }
 
@@ -2314,7 +2378,7 @@ func init() {
 	vh.Describe(
 		"Cases = (corpus invoice, option vector, entry point). Source: every example invoice of the repository (73, all regimes and addons), calculated, validated, optionally signed with a generated key and stamped in the header with each provider the published definition requires (present / absent / an unrelated one), optionally with its code removed (or, for the examples without one, a code added), optionally with value_date / op_date. "+
 			"Option vector: type in every published invoice type + {absent, an undefined key}; reason absent / set / set with blanks around it / blanks only (carried as given); ext: each offered key with its first/last published code and an unpublished code, all offered keys, a published key the definition does not offer, an undefined key; required stamps in the header / missing one by one / all missing / handed over in the options; series; issue date; copy_tax; passed as functional options, bill.WithOptions(struct), the struct followed by functional extension options (the struct must come back unchanged), bill.WithData(JSON) and CLI flags; on the library path the same option values are used for two corrections of the same envelope, which must give the same document (options consumed by the first correction would starve the second). "+
-			"Entry points: Envelope.Correct / Replicate, in-process internal/cli Correct / Replicate (envelope and bare-document input), cli.Bulk correct / replicate requests, and the gobl executable (sampled). "+
+			"Entry points: Envelope.Correct / Replicate, in-process internal/cli Correct / Replicate (envelope and bare-document input), cli.Bulk correct / replicate requests - alone on their stream, or (half of them) as the second request of a stream, written once an unrelated correct request carrying every option has been answered, on one processor; a request with no option at all then has no `options` member - and the gobl executable (sampled). "+
 			"Oracle: (1) json.Marshal(source) and a reflection dump of everything reachable from the source (unexported fields, signatures) are identical before the call, after it, and after the result was recalculated, stamped (AddStamp overwrites in place), signed, had rows appended and had every reachable scalar, map entry and slice element overwritten in place (undone afterwards). "+
 			"(2) refusal model from data/regimes + data/addons `corrections` (types/extensions/stamps concatenated regime then addons, reason_required OR-ed): refused iff type missing, source without code, a required stamp missing, types defined and the type not among them, reason required and empty, or the edited source does not calculate; CLI/bulk/exec additionally iff the expected result does not validate. The code must refuse exactly then. "+
 			"(3) on success: new head.uuid, no sigs, no header stamps, digest matches the document, doc.code absent, new doc.uuid, doc.type = requested, exactly one preceding = {uuid,type,series,code,issue_date of the source, reason, ext as requested, the required stamps, tax iff copy_tax}, issue_date = requested or today (window sampled once at start-up), and the whole document equals the source JSON edited accordingly and calculated independently. "+
